@@ -25,6 +25,10 @@ import zlib
 from . import core
 
 sys.path.insert(0, core.REPO)
+import logging  # noqa: E402
+logging.getLogger("lomond").addHandler(logging.NullHandler())
+logging.getLogger("lomond").propagate = False
+logging.getLogger("lomond").setLevel(logging.CRITICAL + 1)
 
 TICK = 1024.0
 
@@ -433,15 +437,17 @@ def canon_trace(tr):
     English error message; it is not compared (only opcode, code and masking are)."""
     from . import ref6455
     out = []
-    prev_pe = False
-    for it in tr:
-        if it[0] in (1, 2) and prev_pe:
+    pending = False
+    for i, it in enumerate(tr):
+        if it[0] == 0:
+            pending = it[1][0] == 13 and it[1][1] == 0
+        elif it[0] in (1, 2) and pending and not (i + 1 < len(tr) and tr[i + 1][0] == 4):
+            # a write the library made on its own (application writes are followed by a call-result marker)
             fr = ref6455.decode_client_frame(it[1])
             if fr is not None and fr["op"] == 8 and fr["payload"][:2] == b"\x03\xea":
                 out.append([it[0], "close-1002", fr["fin"], fr["rsv"], fr["masked"], fr["key"]])
-                prev_pe = False
+                pending = False
                 continue
-        prev_pe = it[0] == 0 and it[1][0] == 13 and it[1][1] == 0
         out.append(it)
     return out
 
